@@ -76,6 +76,7 @@ Finish(e, o) == /\ out' = [out EXCEPT ![e] = o]
                 /\ ph' = [ph EXCEPT ![e] = "fin"]
 
 Express(t, df) ==
+  /\ t.life > 0                    \* lifetime 0: ExpressNow (legacy); v2 grants a grace period, outside the model
   /\ up /\ used < MaxEntries /\ now + t.life <= MaxT
   /\ LET e == used + 1 IN
        /\ used' = e
@@ -84,6 +85,21 @@ Express(t, df) ==
        /\ dl' = [dl EXCEPT ![e] = now + t.life]
        /\ aw' = [aw EXCEPT ![e] = ~df]
   /\ UNCHANGED <<now, up, out, vrun, held, buf>>
+
+\* InterestLifetime 0 awaited at once (legacy front-end): the deadline is the instant of expression, the awaiting
+\* coroutine gives up in the same loop turn - before any packet can be processed - and the Interest finishes with
+\* a timeout at that instant. (appv2 treats a lifetime that has already elapsed when the Interest is awaited as
+\* "awaited late" and grants a grace period: outside the model, like every late await of an unanswered Interest.)
+ExpressNow(t) ==
+  /\ Front = "legacy" /\ t.life = 0
+  /\ up /\ used < MaxEntries
+  /\ LET e == used + 1 IN
+       /\ used' = e
+       /\ tm' = [tm EXCEPT ![e] = t]
+       /\ dl' = [dl EXCEPT ![e] = now]
+       /\ aw' = [aw EXCEPT ![e] = TRUE]
+       /\ Finish(e, [k |-> "timeout", d |-> 0, r |-> 0, v |-> "-", at |-> now])
+  /\ UNCHANGED <<now, up, vrun, held, buf>>
 
 \* expressing while the face is down is refused with NetworkError; nothing changes
 ExpressDown(t) == ~up /\ UNCHANGED vars
@@ -211,7 +227,7 @@ RecvNack(t, r, env) == RecvNackX(t, r, env, {})
 RecvJunk(j) == up /\ UNCHANGED vars
 
 Next ==
-  \/ \E t \in Templates : (\E df \in Defer : Express(t, df)) \/ ExpressDown(t)
+  \/ \E t \in Templates : (\E df \in Defer : Express(t, df)) \/ ExpressNow(t) \/ ExpressDown(t)
   \/ \E d \in DataSet, env \in Envs, X \in Races : RecvDataX(d, env, X)
   \/ \E e \in Entry, v \in Verdicts : ValFinish(e, v) \/ LateFinish(e, v)
   \/ Fire \/ Tick \/ Shutdown \/ Connect
